@@ -145,9 +145,13 @@ class World:
         self.assumptions = []
         self.dyn_types = {}
         self.spec_consts = {}
+        self.dispatch_fallback = {}
+        self.uf_decls = {}
         hier = extract.exception_hierarchy(self.src)
         for name, bases in hier.items():
             self.cids.add(name, bases)
+        for name in sorted(BUILTIN_TYPE_NAMES):
+            self.cids.add(name, ['int'] if name == 'bool' else [])
         for cf in contract_files:
             self.load(cf)
 
@@ -164,6 +168,9 @@ class World:
             if k.isupper() and isinstance(v, (int, float, str)) and not isinstance(v, bool) and k != 'CONTEXT_FILE':
                 self.spec_consts[k] = v
         self.dispatched |= set(getattr(mod, 'DISPATCHED', []))
+        self.dispatch_fallback.update(getattr(mod, 'DISPATCH_FALLBACK', {}))
+        for uname, sig in getattr(mod, 'UFS', {}).items():
+            self.uf_decls[uname] = sig
         self.inline |= set(getattr(mod, 'INLINE', []))
         self.assumptions += list(getattr(mod, 'ASSUMPTIONS', []))
         self.dyn_types.update(getattr(mod, 'DYN_TYPES', {}))
@@ -290,6 +297,8 @@ class World:
             return PV('dispatch', name)
         if name == 'old':
             return PV('old', None)
+        if name in self.uf_decls:
+            return PV('uf', name)
         if name == 'inv':
             return PV('inv', None)
         if name in Builtins.NAMES:
@@ -370,7 +379,7 @@ class World:
         raise Unsupported(f'module attribute {full}')
 
     def pv_to_val(self, it, v):
-        if v.kind == 'class':
+        if v.kind == 'class' or (v.kind == 'builtin' and v.data in BUILTIN_TYPE_NAMES):
             return V.ClsV(z3.IntVal(self.cids.id(v.data)))
         raise Unsupported(f'{v} stored as a value')
 
@@ -420,15 +429,28 @@ class World:
             self.ufs[key] = z3.Function(name, *sorts)
         return self.ufs[key]
 
+    def call_uf(self, it, name, args):
+        argsorts, ressort = self.uf_decls[name]
+        conv = {'obj': (IntS, lambda v: V.oid(v)), 'str': (StrS, lambda v: V.s(v)), 'int': (IntS, lambda v: O.ival(v)),
+                'val': (Val, lambda v: v), 'bool': (BoolS, lambda v: vals.truthy(v))}
+        back = {'bool': (BoolS, V.BoolV), 'int': (IntS, V.IntV), 'str': (StrS, V.StrV), 'val': (Val, lambda x: x),
+                'obj': (IntS, V.ObjV)}
+        f = self.uf('uf!' + name, [conv[a][0] for a in argsorts] + [back[ressort][0]])
+        ts = [conv[a][1](it.as_val(v)) for a, v in zip(argsorts, args)]
+        return SV(back[ressort][1](f(*ts)))
+
     def call_dispatch(self, it, name, args, kwargs):
         if not args:
             raise Unsupported(f'dispatched spec {name} without receiver')
         recv = args[0]
         cls = recv.ty if isinstance(recv, SV) else None
         if cls in self.classes and not self.classes[cls].get('abstract'):
-            for c in self.mro(cls):
-                if f'{name}_{c}' in self.specs:
-                    return self.calls.call_spec(it, f'{name}_{c}', args, kwargs)
+            nm = name
+            while nm is not None:
+                for c in self.mro(cls):
+                    if f'{nm}_{c}' in self.specs:
+                        return self.calls.call_spec(it, f'{nm}_{c}', args, kwargs)
+                nm = self.dispatch_fallback.get(nm)
             if name in self.specs:
                 return self.calls.call_spec(it, name, args, kwargs)
             raise Unsupported(f'no spec {name}_{cls}')
@@ -571,8 +593,12 @@ class World:
             it.assume(vals.truthy(v.t))
         # lemma hypotheses are evaluated in the pre-state
         lemma_hyps = []
+        quant_lemmas = []
         for lname, lem in c.get('lemmas', {}).items():
             if not lem.get('callers', True):
+                continue
+            if lem.get('ghost_params'):
+                quant_lemmas.append((lname, lem))
                 continue
             hs = [vals.truthy(self.eval_spec(it, text, env, ctx).t) for text in lem.get('requires', [])]
             lemma_hyps.append((lname, lem, z3.And(*hs) if hs else z3.BoolVal(True)))
@@ -619,6 +645,8 @@ class World:
                     for nme, text in lem.get('ensures', {}).items():
                         v = self.eval_spec(it, text, env, ctx)
                         it.assume(z3.Implies(hyp, vals.truthy(v.t)))
+            for lname, lem in quant_lemmas:
+                self.assume_quantified_lemma(it, lem, env, ctx, entry_heap, entry_ghost, returned=True)
             return res
         exc = it.fresh('exc', IntS)
         excv = SV(V.ObjV(exc))
@@ -628,6 +656,8 @@ class World:
         for nme, text in c['raises'].items():
             v = self.eval_spec(it, text, env, ctx)
             it.assume(vals.truthy(v.t))
+        for lname, lem in quant_lemmas:
+            self.assume_quantified_lemma(it, lem, env, ctx, entry_heap, entry_ghost, returned=False)
         for lname, lem, hyp in lemma_hyps:
             if lem.get('raises', 'never') == 'never':
                 it.assume(z3.Not(hyp))
@@ -636,6 +666,45 @@ class World:
                     v = self.eval_spec(it, text, env, ctx)
                     it.assume(z3.Implies(hyp, vals.truthy(v.t)))
         raise PyRaise(excv)
+
+    def assume_quantified_lemma(self, it, lem, env, ctx, entry_heap, entry_ghost, returned):
+        """a lemma with ghost parameters, used at a call site: for all values of the ghost parameters,
+        hypothesis (pre-state) implies conclusion.  Hypothesis and conclusion must evaluate without forking."""
+        from .engine import ProbeFork
+        gnames = list(lem['ghost_params'])
+        gconsts = [it.fresh('lg_' + g, Val) for g in gnames]
+        env2 = dict(env)
+        for g, cst in zip(gnames, gconsts):
+            env2[g] = SV(cst)
+        cur = (it.heap, it.ghost)
+        snap_pc, snap_known = list(it.pc), list(it.known)
+        it.probe += 1
+        try:
+            it.heap, it.ghost = dict(entry_heap), dict(entry_ghost)
+            hs = [vals.truthy(self.eval_spec(it, text, env2, ctx).t) for text in lem.get('requires', [])]
+            it.heap, it.ghost = cur
+            cs = []
+            if returned and lem.get('raises', 'never') != 'must':
+                cs = [vals.truthy(self.eval_spec(it, text, env2, ctx).t) for text in lem.get('ensures', {}).values()]
+        except (ProbeFork, PathEnd):
+            return          # would fork: the lemma is not used at this call site (weaker, still sound)
+        finally:
+            it.probe -= 1
+            it.heap, it.ghost = cur
+            it.pc[:] = snap_pc
+            it.known = snap_known
+        hyp = z3.And(*hs) if hs else z3.BoolVal(True)
+        bound = [z3.Const('b!' + g, Val) for g in gnames]
+        subs = list(zip(gconsts, bound))
+        if returned:
+            body = z3.Implies(hyp, z3.And(*cs) if cs else z3.BoolVal(True))
+            if lem.get('raises', 'never') == 'must':
+                body = z3.Not(hyp)
+        else:
+            if lem.get('raises', 'never') != 'never':
+                return
+            body = z3.Not(hyp)
+        it.assume(z3.ForAll(bound, z3.substitute(body, *subs)))
 
     # ------------------------------------------------------------ verification
     def fresh_param(self, it, name, ty):
@@ -654,7 +723,7 @@ class World:
             it.assume(self.kind_pred(it, t, ty))
         return SV(t, st)
 
-    def verify_case(self, c, case_name, extra_requires, ensures, raises, max_paths=3000):
+    def verify_case(self, c, case_name, extra_requires, ensures, raises, max_paths=3000, ghost_params=None):
         """explore the real function under the contract's preconditions and
         return (obligations, paths, notes)"""
         fdef, cls = self.src.func(c['file'], c['func'])
@@ -690,10 +759,14 @@ class World:
                         it.inputs[f'self.{fname}'] = it.read_field(params['self'].t, fname)
             env = dict(params)
             env.update(closure)
+            for gn, gty in (ghost_params or {}).items():
+                env[gn] = self.fresh_param(it, gn, gty)
+                it.inputs['ghost.' + gn] = env[gn].t
+            it.no_float_overflow = bool(c.get('assume_no_float_overflow'))
             it.ghost['alloc!entry'] = it.alloc_mark()
             for g, sort in c.get('ghost', {}).items():
                 it.ghost[g] = z3.Const(f'in!ghost!{g}', vals.SeqVal)
-            for text in list(c['requires']) + list(extra_requires):
+            for text in list(c['requires']) + list(c.get('assumes', [])) + list(extra_requires):
                 v = self.eval_spec(it, text, env, ctx)
                 it.assume(vals.truthy(v.t))
             # known-finding input classes: the clause is proved for every input outside them
@@ -758,7 +831,8 @@ class World:
             cases.append((lname, lem.get('requires', []), lem.get('ensures', {}), lem.get('raises', 'never')))
         for cname, req, ens, rai in cases:
             try:
-                obls, paths, stats = self.verify_case(c, cname, req, ens, rai, max_paths)
+                gp = c.get('lemmas', {}).get(cname, {}).get('ghost_params') if cname != 'contract' else None
+                obls, paths, stats = self.verify_case(c, cname, req, ens, rai, max_paths, gp)
             except Unsupported as e:
                 out['unsupported'] = f'{cname}: {e}'
                 out['cases'][cname] = {'paths': 0, 'unsupported': str(e)}
